@@ -249,6 +249,7 @@ func c17Run(res *vh.Result, ci int, rng *vh.Rng) {
 		t    int64
 	}
 	seen := map[uint64][]seenRep{} // report serial -> where it was seen (distinct sequence numbers)
+	var order []byte
 	var smfs []*vh.SMF
 	for n := 0; n < c.SMFs; n++ {
 		s, err := vh.NewSMF(n+2, env.UPF, 0)
@@ -261,6 +262,15 @@ func c17Run(res *vh.Result, ci int, rng *vh.Rng) {
 		s.SetOnReport(func(dg *vh.Datagram) vh.ReportAction {
 			if dg.M != nil {
 				mu.Lock()
+				// arrival order of report requests across the SMFs, with what each carries: the observable
+				// trace of how producers, timers and the event loop interleaved
+				if len(order) < 400 {
+					kind := byte('d')
+					if len(dg.M.FindAll(vh.TUsaRepReq)) > 0 {
+						kind = 'u'
+					}
+					order = append(order, byte('0'+n), kind)
+				}
 				for _, e := range dg.M.FindAll(vh.TUsaRepReq) {
 					u := vh.ParseURep(e)
 					if u.HasVol && u.Vol[0] > 0 {
@@ -559,7 +569,11 @@ func c17Run(res *vh.Result, ci int, rng *vh.Rng) {
 	res.Count("events_injected", atomic.LoadInt64(&injected))
 	res.Count("driver_calls", tap.NCalls)
 	res.Count("netlink_requests", atomic.LoadInt64(&k.NReq))
-	res.Eval(vh.Sig(vh.J(c)))
+	mu.Lock()
+	res.Count("report_requests_seen", int64(len(order)/2))
+	isig := vh.Sig(string(order))
+	mu.Unlock()
+	res.Eval("interleaving:" + isig) // distinct observed arrival orders are what counts as distinct executions
 	if ci < 3 {
 		res.Sample(c)
 	}
@@ -589,7 +603,7 @@ func runC17(res *vh.Result) {
 		"histories with duplicates and retransmissions, 2-8 producers (kernel multicast dispatched by the real mux goroutine, injected and real 1 s periodic ticks, direct " +
 		"report notifications), transaction timers of 2-20 ms, simulated-kernel latency, GOMAXPROCS 2/4/16 and a stop request in one of four placements; monitors: race " +
 		"reports, Fatal/panic, termination and goroutine census after Stop, exactly-once accounting of uniquely valued reports; every case is non-trivial; " +
-		"distinct = distinct configurations (the schedule itself varies per run and is not counted)"
+		"distinct = distinct observed interleaving signatures (arrival order and kind of the first 200 Session Report Requests across the SMFs)"
 	res.Assumptions = []string{
 		"race reports are attributed by the innermost non-runtime frame of each access; third-party-only races are listed, harness races make the run inconclusive",
 		"direct callers of the report-handler API (harness goroutines) stop before the stop request; the multicast channel and the tickers do not",
